@@ -354,3 +354,104 @@ def pan4_constant_result_columns(ctx):
         ctx.check('PAN-4', 'convert_to_output_format|length-check-is-an-error-value', use['kind'] in ('try', 'returned', 'match'),
                   'BatchResult::validate() result is %s (a constant next to a column in the select list '
                   'gives columns of different lengths)' % use['kind'], where(t))
+
+
+# ------------------------------------------------------------------------------------ TBL-24
+def _sqlparser_fields(ctx):
+    """Field lists of the sqlparser structs / variants of the enums the parser destructures, read from the
+    source of the sqlparser version in Cargo.lock (cargo registry, available offline)."""
+    import glob
+    import os
+    lock = open(os.path.join(ctx.repo, 'Cargo.lock')).read()
+    m = re.search(r'name = "sqlparser"\nversion = "([^"]+)"', lock)
+    ctx.require(m, 'TBL-24: sqlparser not in Cargo.lock')
+    dirs = glob.glob(os.path.expanduser('~/.cargo/registry/src/*/sqlparser-%s' % m.group(1)))
+    ctx.require(dirs, 'TBL-24: source of sqlparser %s not in the cargo registry' % m.group(1))
+    src = open(os.path.join(dirs[0], 'src', 'ast', 'query.rs')).read()
+
+    def struct_fields(name):
+        mm = re.search(r'pub struct %s \{(.*?)\n\}' % name, src, re.S)
+        return re.findall(r'^\s+pub (\w+):', mm.group(1), re.M) if mm else None
+
+    def enum_variants(name):
+        mm = re.search(r'pub enum %s \{(.*?)\n\}' % name, src, re.S)
+        return re.findall(r'^    (\w+)\s*[\{\(,]', mm.group(1), re.M) if mm else None
+    return m.group(1), {'Query': struct_fields('Query'), 'Select': struct_fields('Select'), 'OrderBy': struct_fields('OrderBy')}, \
+        {'LimitClause': enum_variants('LimitClause'), 'OrderByKind': enum_variants('OrderByKind')}
+
+
+def tbl24_statement_destructured_exhaustively(ctx):
+    """The SQL front end is an external parser that accepts far more than LocustDB executes.  Whatever
+    `parser::get_query_components` does not look at is accepted and ignored: `LIMIT 1, 2`, `FETCH FIRST 2
+    ROWS ONLY` and `SELECT TOP 2` returned every row (more rows than the LIMIT allows), `QUALIFY`
+    returned rows the query excludes, `count(DISTINCT g)` counted rows.  The destructuring of the parsed
+    statement must therefore name every field (no `..`) and every variant (no `_` arm)."""
+    from mirlib.astlib import find, walk
+    ctx.rule('TBL-24', 'the parsed statement is destructured exhaustively: the patterns over sqlparser\'s Query, '
+                       'Select and OrderBy name every field, the matches over LimitClause and OrderByKind have '
+                       'no wildcard arm, and a function call is tested for DISTINCT / FILTER / OVER', floor=6)
+    ver, structs, enums = _sqlparser_fields(ctx)
+    fn = ctx.ast.fn('get_query_components', 'syntax/parser.rs')
+    pats = {}
+    for n in walk(fn):
+        if isinstance(n, dict) and n.get('k') == 'p_struct':
+            nm = (n.get('path') or '').split('::')[-1]
+            pats.setdefault(nm, []).append(n)
+    for sname in ('Query', 'Select', 'OrderBy'):
+        want = structs.get(sname)
+        ctx.require(want, 'TBL-24: struct %s not found in sqlparser %s' % (sname, ver))
+        ps = pats.get(sname, [])
+        if not ps:
+            ctx.violation('TBL-24', 'get_query_components|%s|destructured' % sname,
+                          'sqlparser::ast::%s is not destructured in get_query_components: its fields are read '
+                          'selectively, the others are ignored' % sname, 'src/syntax/parser.rs')
+            continue
+        p = ps[0]
+        named = [f['name'] for f in p['fields']]
+        missing = [f for f in want if f not in named]
+        ok = p.get('rest') == '0' and not missing
+        ctx.check('TBL-24', 'get_query_components|%s|every-field-named' % sname, ok,
+                  'pattern over sqlparser %s %s names %d of %d fields%s' %
+                  (ver, sname, len(named), len(want), '' if ok else '; ignored: %s%s' % (missing, ' (rest pattern `..`)' if p.get('rest') != '0' else '')),
+                  'src/syntax/parser.rs:%s' % p.get('l'))
+    # enums: every variant appears in some pattern of the function, and no wildcard arm in the match that names them
+    for ename in ('LimitClause', 'OrderByKind'):
+        want = enums.get(ename)
+        ctx.require(want, 'TBL-24: enum %s not found in sqlparser %s' % (ename, ver))
+        best = None
+        for m in find(fn, 'match'):
+            seen = set()
+            wild = False
+            for a in m.get('arms', []):
+                top = a['pat']
+                for n in walk(top):
+                    if isinstance(n, dict) and n.get('path') and ('%s::' % ename) in n['path']:
+                        seen.add(n['path'].split('::')[-1])
+                if top.get('k') == 'p_wild':
+                    wild = True
+            if seen and (best is None or len(seen) > len(best[0])):
+                best = (seen, wild, m)
+        if best is None:
+            ctx.violation('TBL-24', 'get_query_components|%s|matched' % ename,
+                          'no match over sqlparser::ast::%s in get_query_components' % ename, 'src/syntax/parser.rs')
+            continue
+        seen, wild, m = best
+        missing = [v for v in want if v not in seen]
+        # a struct-like variant pattern with `..` ignores fields of the variant (LIMIT .. BY)
+        open_variants = sorted({n['path'].split('::')[-1] for n in walk(m) if isinstance(n, dict) and n.get('k') == 'p_struct'
+                                and ('%s::' % ename) in (n.get('path') or '') and n.get('rest') != '0'
+                                and len(n.get('fields', [])) > 0})
+        if open_variants:
+            missing = missing + ['%s { .. }' % v for v in open_variants]
+        ctx.check('TBL-24', 'get_query_components|%s|every-variant-named' % ename, not missing and not wild,
+                  'match over %s names %s%s' % (ename, sorted(seen),
+                                               '' if not missing and not wild else '; not named: %s%s' % (missing, ', wildcard arm present' if wild else '')),
+                  'src/syntax/parser.rs:%s' % m.get('l'))
+    # function calls
+    ce = ctx.ast.fn('convert_to_native_expr', 'syntax/parser.rs')
+    txt = ' '.join(n.get('member', '') for n in walk(ce) if isinstance(n, dict) and n.get('k') == 'field')
+    for fld in ('duplicate_treatment', 'filter', 'over'):
+        ctx.check('TBL-24', 'convert_to_native_expr|Function|%s-tested' % fld, fld in txt,
+                  'function calls are %s for `%s`' % ('tested' if fld in txt else 'not tested', fld) +
+                  ('' if fld in txt else ': count(DISTINCT x) / sum(x) FILTER (..) / sum(x) OVER (..) run as the plain aggregate'),
+                  'src/syntax/parser.rs')
